@@ -463,6 +463,9 @@ def stage_m3(ctx, stats, dis, fails, driver_ok):
         body = dict(s, default=dv) if "$ref" not in s else {"allOf": [s], "default": dv}
         cases.append(("bad:%d" % i, {"title": "Root", "type": "object", "properties": {"p": body}, "definitions": BAD_DEFS}, "invalid"))
     for fid, w in FINDING_WITNESS.items(): cases.append(("finding:" + fid, w["calls"][0]["root"], "finding"))
+    # a listed finding whose witness is a VALID default that is refused (judged by the "valid default rejected" clause)
+    for fd in vlib.load_findings("C06"):
+        if fd["id"] == "C06-variant-shared-inline-type": cases.append(("finding-valid:" + fd["id"], fd["witness"]["calls"][0]["root"], "valid"))
     bc = []
     for tag, d, kind in cases:
         c = b.add_case([{"root": d}], SETTINGS, tag=tag); c.settings = SETTINGS; c.request = {"settings": SETTINGS, "calls": [{"root": d}]}
@@ -711,6 +714,52 @@ def _int_bound_site(doc, body, dv):
     walk(body, dv, False)
     return bool(found)
 
+def _one_string(s):
+    return isinstance(s, dict) and ((isinstance(s.get("enum"), list) and len(s["enum"]) == 1 and isinstance(s["enum"][0], str)) or isinstance(s.get("const"), str))
+
+def _collapse_twins(x):
+    """the document as typify types it where a TAGGED union (every branch a plain object that requires a member pinned to one
+    string) has two branches declaring a member of one name with different in-line schemas: the later branch's member gets the
+    schema of the first (enums.rs names an in-line subtype after the enum and the member, lib.rs assign_type reuses the first
+    type of that name). Returns (document, changed?)"""
+    changed = False
+    def go(v):
+        nonlocal changed
+        if isinstance(v, list): return [go(y) for y in v]
+        if not isinstance(v, dict): return v
+        out = {k: (y if k in ("default", "enum", "const", "examples") else go(y)) for k, y in v.items()}
+        for comb in ("oneOf", "anyOf"):
+            bs = out.get(comb)
+            if not (isinstance(bs, list) and len(bs) >= 2 and all(isinstance(b, dict) and isinstance(b.get("properties"), dict) for b in bs)): continue
+            tags = [k for k in bs[0]["properties"] if all(k in b["properties"] and k in b.get("required", []) and _one_string(b["properties"][k]) for b in bs)]
+            if not tags: continue
+            first = {}
+            nbs = []
+            for b in bs:
+                props = dict(b["properties"])
+                for k, ps in props.items():
+                    if k in tags or not isinstance(ps, dict) or "$ref" in ps: continue
+                    if ps.get("type") not in ("object", "array") and "enum" not in ps and "properties" not in ps: continue
+                    if k in first and json.dumps(first[k], sort_keys=True) != json.dumps(ps, sort_keys=True):
+                        props[k] = first[k]; changed = True
+                    first.setdefault(k, ps)
+                nbs.append(dict(b, properties=props))
+            out[comb] = nbs
+        return out
+    return go(x), changed
+
+def _twin_default(f):
+    """a default that is valid under the document and NOT valid once the twins of a tagged union share the first one's schema"""
+    try:
+        doc = f["input"]["calls"][0]["root"]
+        doc2, changed = _collapse_twins(doc)
+        if not changed: return False
+        d1 = {ptr: dv for ptr, _, dv in gen.find_defaults(doc)}
+        req = [{"doc": doc2, "schema": body, "value": dv} for ptr, body, dv in gen.find_defaults(doc2) if ptr in d1]
+        return any(v is False for v in gen.run_oracle(req)) if req else False
+    except Exception:
+        return False
+
 def attribute(f):
     """known finding an oracle failure belongs to (by predicate on the model's view of the failing site), or None"""
     dump = f.get("dump"); sites = f.get("site") or []
@@ -720,6 +769,8 @@ def attribute(f):
         if dump and all("Default` is not satisfied" in (m or "") for m in f.get("errors", [])) and any(omits_defaulted_member(dump, t, d) for t, d in sites):
             return "C06-nested-default"
         return None
+    if cl == "valid default rejected":
+        return "C06-variant-shared-inline-type" if _twin_default(f) else None
     if cl.startswith("d:"):
         if f.get("ignored_position"): return "C06-default-ignored"
         if dump and any(has_native(dump, t) for t, d in sites): return "C06-native-default"
